@@ -91,13 +91,20 @@ def INDEX(arr, row_num=DEFAULT, column_num=DEFAULT, area_num=DEFAULT):
         column_num = utils.parse_number(column_num)
         if isinstance(column_num, error.XLError):
             return column_num
+    if (row_num is not DEFAULT and row_num < 0) or (column_num is not DEFAULT and column_num < 0):
+        # Python's negative indexing would silently address an element counted from the end
+        return error.VALUE
     try:
         if row_num is DEFAULT:
+            if column_num == 0:
+                return arr
             if bidimensional:
                 return [row[column_num - 1] for row in arr]
             else:
                 return arr[column_num - 1]
         if column_num is DEFAULT:
+            if row_num == 0:
+                return arr
             return arr[row_num - 1]
         if row_num == 0 and column_num == 0:
             return arr
